@@ -6,6 +6,7 @@
 import TdVerif.Lemmas.C12Split
 import TdVerif.Lemmas.C12Pool
 import TdVerif.Lemmas.C12Tensor
+import TdVerif.Lemmas.C12Iter
 
 namespace TdVerif.Props.C12
 open TdVerif.C12
@@ -170,6 +171,109 @@ theorem map_model_eq_sequential (f : List α → List β) (hf : SliceWise f) (ro
     rw [map_eq_sequential f hf rows ps hp hne] at h
     exact h.symm
 
+/-! ### in-place apply: the objects -/
+
+/-- the guard of `_multithread_rebuild`: results are *bound* only into a fresh result; an in-place apply copies into the
+    existing tensors whatever `checked` is — the guard the seeded variant drops -/
+theorem setter_guard (checked inplace : Bool) :
+    (setMode checked inplace = .bind ↔ (checked = true ∧ inplace = false))
+      ∧ setMode checked true = .copyInto
+      ∧ setModeNoGuard true true = .bind := by
+  cases checked <;> cases inplace <;> simp [setMode, setModeNoGuard]
+
+/-- **an in-place multithreaded apply keeps every leaf object** (any number of results, any arrival order): the keys still hold
+    the tensors they held, no tensor is created, and the values land in the memory every other handle reads -/
+theorem inplace_keeps_objects (o : Objs β) (writes : List (Nat × β)) :
+    (rebuildObjs .copyInto o writes).ptr = o.ptr ∧ (rebuildObjs .copyInto o writes).next = o.next
+      ∧ (rebuildObjs .copyInto o writes).heap = runWrites o.heap (writes.map fun w => (o.ptr.getD w.1 0, w.2)) := by
+  induction writes generalizing o with
+  | nil => simp [rebuildObjs, runWrites]
+  | cons w ws ih =>
+    have := ih (setLeaf .copyInto o w.1 w.2)
+    simp only [rebuildObjs, List.foldl_cons] at this ⊢
+    simp only [setLeaf] at this ⊢
+    refine ⟨this.1, this.2.1, ?_⟩
+    rw [this.2.2]
+    simp [runWrites]
+
+/-- … hence, the leaves living in pairwise distinct cells, in **every** arrival order the same heap (`writers_order_independent`) -/
+theorem inplace_apply_order_independent (o : Objs β) (writes ts : List (Nat × β))
+    (hd : (writes.map fun w => (o.ptr.getD w.1 0, w.2)).Pairwise fun a b => a.1 ≠ b.1) (hp : writes.Perm ts) :
+    (rebuildObjs .copyInto o ts).heap = (rebuildObjs .copyInto o writes).heap := by
+  rw [(inplace_keeps_objects o ts).2.2, (inplace_keeps_objects o writes).2.2]
+  exact (runWrites_perm o.heap _ _ hd (hp.map _)).symm
+
+/-- binding instead (the seeded variant on `inplace=True`): the key points to a new object and the memory the old handles read
+    keeps the old value -/
+theorem bind_rebinds_counterexample :
+    let o : Objs Nat := ⟨Slots.write (fun _ => none) 0 10, [0], 1⟩
+    let r := rebuildObjs (setModeNoGuard true true) o [(0, 11)]
+    r.ptr = [1] ∧ r.heap 0 = some 10 ∧ r.heap 1 = some 11
+      ∧ (rebuildObjs (setMode true true) o [(0, 11)]).ptr = [0] ∧ (rebuildObjs (setMode true true) o [(0, 11)]).heap 0 = some 11 := by
+  simp [rebuildObjs, setLeaf, setMode, setModeNoGuard, Slots.write]
+
+/-! ### `map_iter` -/
+
+/-- **`map_iter` without shuffling** (eager *and* generator mode): the iterator yields, in order, the results on the chunks,
+    and what it yields concatenates to `fn(td)` — for every dim size `n > 0`, chunk size, chunk count, worker count. -/
+theorem map_iter_eq_sequential (f : List α → List β) (hf : SliceWise f) (rows : List α) (hn : 0 < rows.length)
+    (cs nc : Option Nat) (w : Nat) (gen : Bool) (ys : List (Option (List β)))
+    (h : mapIterModel rows cs nc w gen (fun _ x => some (f x)) = .ok ys) :
+    (∃ ps, splitTensordict rows.length cs nc w gen = .ok ps ∧ ys = ps.map fun p => some (f (p.extract rows)))
+      ∧ (ys.filterMap id).flatten = f rows := by
+  unfold mapIterModel at h
+  cases hs : splitTensordict rows.length cs nc w gen with
+  | error e => simp [hs] at h
+  | ok ps =>
+    simp only [hs, Except.ok.injEq] at h
+    subst h
+    refine ⟨⟨ps, rfl, rfl⟩, ?_⟩
+    have hp := slices_partition _ cs nc w gen ps hs
+    have hne : ps ≠ [] := by
+      intro h0; subst h0
+      have := congrArg List.length hp
+      simp at this; omega
+    have hm := map_eq_sequential f hf rows ps hp hne
+    unfold mapNoOut at hm
+    simp only at hm
+    split at hm
+    · simp at hm
+    · simpa using hm
+
+/-- **`map_iter(shuffle=True)`**: whatever permutation `randperm` draws and in whatever order the workers complete, what the
+    iterator yields is, put together, a permutation of the row-wise results — every row exactly once. -/
+theorem map_iter_shuffle_permutation (g : α → β) (rows : List α) (cs nc : Option Nat) (w : Nat) (rp order : List Nat)
+    (ps : List Piece) (hs : splitTensordict rows.length cs nc w true = .ok ps)
+    (hrp : rp.Perm (List.range rows.length)) (hord : order.Perm (List.range ps.length))
+    (ys : List (Option (List β)))
+    (h : mapIterShuffleModel rows cs nc w true rp order (fun x => some (x.map g)) = .ok ys) :
+    ((ys.filterMap id).flatten).Perm (rows.map g) := by
+  simp only [mapIterShuffleModel, Bool.true_eq_false, if_false, hs, Except.ok.injEq] at h
+  subst h
+  have hlen : rp.length = rows.length := by simpa using hrp.length_eq
+  let results : List (Option (List β)) := (shuffledChunks rows.length rp ps).map fun is => some ((pick rows is).map g)
+  have hrl : results.length = ps.length := by simp [results, shuffledChunks]
+  have h1 : (pick results order).Perm results := pick_perm results order (by rw [hrl]; exact hord)
+  have h2 := (List.Perm.filterMap id h1).flatten
+  refine h2.trans ?_
+  have h3 : results.filterMap id = (shuffledChunks rows.length rp ps).map fun is => (pick rows is).map g := by
+    simp only [results, List.filterMap_map]
+    simp [Function.comp_def]
+  have h4 : ((shuffledChunks rows.length rp ps).map fun is => (pick rows is).map g).flatten
+      = (pick rows (shuffledChunks rows.length rp ps).flatten).map g := by
+    rw [← pick_flatten, List.map_flatten, List.map_map]
+    rfl
+  have h5 : (shuffledChunks rows.length rp ps).flatten = rp := by
+    have e : (shuffledChunks rows.length rp ps) = ps.map fun p => gather rp (p.rows rows.length) := rfl
+    rw [e, gather_flatMap, slices_partition _ cs nc w true ps hs, ← hlen]
+    exact gather_range rp
+  rw [h3, h4, h5]
+  exact (pick_perm rows rp hrp).map g
+
+/-- shuffling needs the generator mode -/
+theorem map_iter_shuffle_eager_refused (rows : List α) (cs nc : Option Nat) (w : Nat) (rp order : List Nat)
+    (fn : List α → Option (List β)) : mapIterShuffleModel rows cs nc w false rp order fn = .error .shuffleEager := rfl
+
 /-- `chunksize=0`: unbind, apply per member, restack — equals the row-wise map (`unbind_stack_eq`). -/
 theorem unbind_stack_eq (g : α → β) (rows : List α) (hn : 0 < rows.length) :
     mapNoOut (((List.range rows.length).map Piece.idx).map fun p => some ((p.extract rows).map g))
@@ -224,6 +328,21 @@ theorem reassemble_out_correct (g : α → β) (rows : List α) (ps : List Piece
   have h2 : (ps.map fun p => (p.extract rows).map g) = (ps.map fun p => p.extract rows).map (List.map g) := by
     simp [List.map_map, Function.comp_def]
   rw [h2, ← List.map_flatten, extract_partition rows ps hp]
+
+/-- **the whole `_map` with a regular `out=` buffer, eager and generator mode**: for every dim size `n > 0`, chunk size,
+    chunk count, worker count and mode that `_split_tensordict` accepts, a row-wise function and a buffer of the input's
+    length: `map` returns the buffer and the buffer holds `fn(td)`. -/
+theorem map_model_regular_out_eq_sequential (g : α → β) (rows : List α) (cs nc : Option Nat) (w : Nat) (gen : Bool)
+    (out : List β) (hout : out.length = rows.length) (r : Option (List β) × List β)
+    (h : mapModel rows cs nc w gen (fun _ x => some (x.map g)) .regular out = .ok r) :
+    r = (some (rows.map g), rows.map g) := by
+  unfold mapModel at h
+  cases hs : splitTensordict rows.length cs nc w gen with
+  | error e => simp [hs] at h
+  | ok ps =>
+    have hp := slices_partition _ cs nc w gen ps hs
+    simp only [hs, reassemble_out_correct g rows ps hp out hout, Except.ok.injEq] at h
+    exact h.symm
 
 /-- The loop of the **pinned** tree (offset not advanced for `None`) violates the specification:
     six rows, chunk size 1, `None` for rows 0, 2, 4 — the results 1, 3, 5 land in rows 0, 1, 2
